@@ -1,7 +1,7 @@
 """Shared machinery of the program-level checks C02 / C03 / C05 / C12 / C20 (DESIGN.md §2.3 'Program-level semantics').
 
   * a state-aware generator of pipeline programs (line format: lean/Driver/Pipeline.lean), everything from one PRNG;
-  * the differential: harness/pipe.cpp (real library) vs `ymdriver pipe` (Lean `mech`) vs `ymdriver pipe-spec` (Lean `spec`),
+  * the differential: harness/pipe.cpp (real library) vs `ymdriver_pipe pipe` (Lean `mech`) vs `ymdriver_pipe pipe-spec` (Lean `spec`),
     one output line per input line;
   * property monitors that look only at the implementation's output and at `spec`;
   * delta-debugging shrink of a failing program to a minimal line list;
@@ -10,6 +10,7 @@
 import itertools
 import os
 import random
+import re
 import subprocess
 import time
 
@@ -18,10 +19,6 @@ from . import common as C
 DRV = os.environ.get('VERIF_PIPE_DRV') or os.path.join(C.LEAN, '.lake/build/bin/ymdriver_pipe')  # (override: development only)
 CORPUS = os.path.join(C.VERIF, 'corpus', 'pipe')
 
-D10_KEY = 'inner task with a Run-type head returned from a continuation'
-D10_WHAT = ('a continuation returning a Task whose head is a Schedule()/LazyContract() core crashes: CallResolveAsync enters the '
-            'head through Here(), Core::Impl takes the IsRun branch to async_done() with _self.caller == nullptr '
-            '(PromiseCore: UniqueCore::Here reads a Result out of the outer core\'s Callback bytes) [D10]')
 
 
 # ------------------------------------------------------------------------------------------------ program structure
@@ -150,6 +147,7 @@ class SpecState:
         self.subs = []
         self.inv = []
         self.placed = []   # (step id, executor it was submitted to or None)
+        self.trace = []    # (step id, what it was invoked with, what it completed with) for invoked steps
 
     def rejects(self, k):
         lim = self.cfg.get(k, (True, None))[1]
@@ -206,16 +204,18 @@ def spec_step(st, prog, s, hd, r, inh, ovr=None):
     st.inv.append(s.id)
     b = s.beh
     if b[0] == 'val':
-        return add_k(inp, b[1]), own
-    if b[0] == 'res':
-        return b[1], own
-    if b[0] == 'throw':
-        return 'x%d' % b[1], own
-    i = prog.inner[b[1]]
-    r0, inh0 = spec_src(st, prog, i.src, None, False)
-    steps = ([i.src.head] if i.src.is_unit() else []) + i.steps
-    r1, _ = spec_steps(st, prog, steps, i.src.is_unit(), r0, inh0)
-    return r1, own
+        out = add_k(inp, b[1])
+    elif b[0] == 'res':
+        out = b[1]
+    elif b[0] == 'throw':
+        out = 'x%d' % b[1]
+    else:
+        i = prog.inner[b[1]]
+        r0, inh0 = spec_src(st, prog, i.src, None, False)
+        steps = ([i.src.head] if i.src.is_unit() else []) + i.steps
+        out, _ = spec_steps(st, prog, steps, i.src.is_unit(), r0, inh0)
+    st.trace.append((s.id, inp, out))
+    return out, own
 
 
 def spec_steps(st, prog, steps, hd, r, inh, ovr=None):
@@ -261,32 +261,12 @@ def prog_size(prog, invoked):
     return (0 if prog.src.is_unit() else 1) + steps_size(([prog.src.head] if prog.src.is_unit() else []) + prog.steps)
 
 
-def has_d10(prog):
-    """the D10 shape: an async behaviour referring to a lazy inner pipeline whose head is not a ReadyCore"""
-    used = set()
-
-    def visit(steps):
-        for s in steps:
-            if s.beh[0] == 'async':
-                used.add(s.beh[1])
-    visit(([prog.src.head] if prog.src.is_unit() else []) + prog.steps)
-    changed = True
-    while changed:
-        changed = False
-        for pid in list(used):
-            i = prog.inner[pid]
-            before = len(used)
-            visit(([i.src.head] if i.src.is_unit() else []) + i.steps)
-            changed |= len(used) != before
-    return any(prog.inner[pid].src.kind in ('schedule', 'lazy_contract') for pid in used)
-
-
 # ------------------------------------------------------------------------------------------------ generator
 class Gen:
     """emphasis: 'C02' routing/unwrapping, 'C05' executors/rejection, 'C12' lazy, 'C20' allocation, 'C03' drop points"""
 
-    def __init__(self, rng, emphasis, d10_rate=0.02, max_steps=8, max_depth=2):
-        self.rng, self.emph, self.d10_rate, self.max_steps, self.max_depth = rng, emphasis, d10_rate, max_steps, max_depth
+    def __init__(self, rng, emphasis, max_steps=8, max_depth=2):
+        self.rng, self.emph, self.max_steps, self.max_depth = rng, emphasis, max_steps, max_depth
 
     def rval(self, kinds='vex'):
         k = self.rng.choice(kinds)
@@ -376,15 +356,8 @@ class Gen:
     def gen_inner(self, prog, depth):
         """returns pid of a fresh inner pipeline (defined before use)"""
         rng = self.rng
-        d10 = rng.random() < self.d10_rate
-        lazy = d10 or rng.random() < 0.3
-        while True:
-            src = self.gen_src(prog, lazy, inner=True)
-            if lazy and not d10 and src.kind != 'task_ready':
-                continue  # only D10 programs use Run-type / PromiseCore heads for inner tasks
-            if d10 and src.kind == 'task_ready':
-                continue
-            break
+        lazy = rng.random() < 0.35      # a Task: MakeTask / Schedule / LazyContract head (the latter two: the former D10 shapes)
+        src = self.gen_src(prog, lazy, inner=True)
         st = SpecState(prog.cfg)  # inner steering ignores the outer submit counts (approximation, generator only)
         r, inh = spec_src(st, prog, src, None, False)
         kind = kind_of_src(src)
@@ -517,8 +490,6 @@ class Gen:
         prog.body = body
         if lazy:
             prog.tags.add('lazy')
-        if has_d10(prog):
-            prog.tags.add('d10')
         return prog
 
 
@@ -574,8 +545,8 @@ def _run_chunk(args):
     text = ''.join('\n'.join(ls) + '\nend\n' for ls in line_lists)
     outs = {'impl': run_stream([h], text, 'pipe harness')}
     if with_model:
-        outs['model'] = run_stream([drv, 'pipe'], text, 'ymdriver pipe')
-        outs['spec'] = run_stream([drv, 'pipe-spec'], text, 'ymdriver pipe-spec')
+        outs['model'] = run_stream([drv, 'pipe'], text, 'ymdriver_pipe pipe')
+        outs['spec'] = run_stream([drv, 'pipe-spec'], text, 'ymdriver_pipe pipe-spec')
     total = sum(len(ls) + 1 for ls in line_lists)
     for k, v in outs.items():
         if len(v) != total:
@@ -701,8 +672,6 @@ def reparse(lines):
     prog.meta['final_expect'] = exps[-1] if exps else None
     if prog.src is not None and prog.src.lazy():
         prog.tags.add('lazy')
-    if prog.src is not None and has_d10(prog):
-        prog.tags.add('d10')
     return prog
 
 
@@ -796,17 +765,25 @@ def monitor(prog, outs, props):
             bad.append(('C05', 'Submits %s, expected %s' % (fin['sub'], spec['sub'])))
         if (pr, pst.inv, pst.subs) != (spec['r'], spec['inv'], spec['sub']):
             bad.append(('gen', 'python reading of spec differs from Lean spec: %s vs %s' % ((pr, pst.inv, pst.subs), spec)))
-    # C12: a cancelled Task invokes no value callback
+    # C12: destroying a Task that was never started invokes no value callback — the literal clause.  Any value callback
+    # invoked is reported; the message says whether a callback in front of it had turned the failure into a value
+    # (open known finding K1 of known_findings.json) or not (a plain violation).
     if prog.start == 'cancel':
-        # (a value callback may run only after an invoked Result/error callback has turned the StopError into a value)
-        recovered = False
+        tr = {sid: (i_, o_) for sid, i_, o_ in pst.trace}
+        recovering = None
         for sid in fin['inv']:
-            if steps[sid].sig in ('R', 'E'):
-                recovered = True
-            elif steps[sid].sig == 'V' and not recovered:
-                bad.append(('C12', 'value callback %d invoked although the Task was dropped unstarted and no callback had '
-                                   'recovered from the StopError' % sid))
+            if steps[sid].sig == 'V':
+                if recovering is not None:
+                    bad.append(('C12', 'value callback %d invoked while an unstarted Task is destroyed, behind callback %d which '
+                                       'turned the StopError into a value' % (sid, recovering)))
+                else:
+                    bad.append(('C12', 'value callback %d invoked while an unstarted Task is destroyed, with no recovering callback '
+                                       'in front of it' % sid))
                 break
+            i_o = tr.get(sid)
+            # invoked with the failure, and returned a value or built a new pipeline (whose own source feeds its callbacks)
+            if i_o is not None and i_o[0][0] != 'v' and (i_o[1][0] == 'v' or steps[sid].beh[0] == 'async'):
+                recovering = sid
     # C20: allocations <= number of cores the program constructs
     bound = prog_size(prog, set(fin['inv']))
     if total_alloc > bound:
@@ -854,6 +831,19 @@ def shrink(lines, fails, budget=400):
                 break
             n = min(len(cur), n * 2)
     return cur
+
+
+def _has_message(lines, prop, kind, pattern):
+    try:
+        prog = reparse(lines)
+        if prog.src is None:
+            return False
+        o = run_batch([lines], kind)[0]
+    except Exception:
+        return False
+    if any(x == 'bad' for x in o['impl']):
+        return False
+    return any(q == prop and re.search(pattern, m) for q, m in monitor(prog, o, {prop}))
 
 
 def fails_with(props_wanted, kind='plain', need_model_diff=False):
@@ -973,7 +963,7 @@ def exhaustive(max_steps=2):
 
 # ------------------------------------------------------------------------------------------------ the check
 def distribution(progs, results):
-    d = {'programs': len(progs), 'steps': 0, 'invoked': 0, 'combos': {}, 'sources': {}, 'starts': {}, 'lazy': 0, 'd10': 0,
+    d = {'programs': len(progs), 'steps': 0, 'invoked': 0, 'combos': {}, 'sources': {}, 'starts': {}, 'lazy': 0, 'inner_run_heads': 0,
          'rejected_jobs': 0, 'called_jobs': 0, 'nonterminal': 0}
     for p, o in zip(progs, results):
         steps = all_steps(p)
@@ -982,8 +972,7 @@ def distribution(progs, results):
         if 'lazy' in p.tags:
             d['lazy'] += 1
             d['starts'][str(p.start)] = d['starts'].get(str(p.start), 0) + 1
-        if 'd10' in p.tags:
-            d['d10'] += 1
+        d['inner_run_heads'] += sum(1 for i in p.inner.values() if i.src.kind in ('schedule', 'lazy_contract'))
         fe = p.meta.get('final_expect')
         if fe is None:
             continue
@@ -1032,7 +1021,7 @@ def check(res, prop, tier, n_quick, n_thorough, extra_programs=(), twins=False, 
             progs += exhaustive(2)
     if twins:
         for p in list(progs):
-            tw = eager_twin(p) if 'lazy' in p.tags and 'd10' not in p.tags else None
+            tw = eager_twin(p) if 'lazy' in p.tags else None
             if tw is not None:
                 p.meta['twin'] = len(progs)
                 progs.append(tw)
@@ -1041,8 +1030,8 @@ def check(res, prop, tier, n_quick, n_thorough, extra_programs=(), twins=False, 
     results = None
     prop_fail = []   # (prog index, message)
     corr_fail = []   # (prog index, line)
-    known = 0
-    known_first = None
+    known = {}       # id of an open entry of known_findings.json -> [entry, count, first (prog index, build kind, message)]
+    open_known = [k for k in C.load_findings().get('open', []) if k.get('property') == prop]
     for kind in kinds:
         sub = progs if kind == 'plain' else progs[:n_asan]
         rs = run_batch([p.lines() for p in sub], kind, with_model=drv_ok)
@@ -1056,26 +1045,26 @@ def check(res, prop, tier, n_quick, n_thorough, extra_programs=(), twins=False, 
                 b = parse_state(to['impl'][len(to['impl']) - len(tw.body) + tw.meta['final_expect']])
                 if a and b and (a['inv'] != b['inv'] or (a['st'].startswith('ready') and a['st'] != b['st'])):
                     ms.append((prop, 'lazy pipeline ended with %s inv=%s, its eager twin with %s inv=%s' % (a['st'], a['inv'], b['st'], b['inv'])))
+            kms = [(q, m, next((k for k in open_known if re.search(k['match'], m)), None)) for (q, m) in ms]
+            for (q, m, kf) in kms:
+                if kf is not None:
+                    known.setdefault(kf['id'], [kf, 0, (idx, kind, m)])[1] += 1
+            ms = [(q, m) for (q, m, kf) in kms if kf is None]
             if ms:
-                if 'd10' in p.tags:
-                    known += 1
-                    if known_first is None:
-                        known_first = (idx, kind, ms[0][1])
-                    continue
                 prop_fail.append((idx, kind, ms[0][0], ms[0][1]))
             elif drv_ok:
                 ln = correspondence(p, o)
-                if ln is not None and 'd10' not in p.tags:
+                if ln is not None:
                     corr_fail.append((idx, kind, ln))
-    if known:
-        idx, kind, msg = known_first
-        small = shrink(progs[idx].lines(), fails_with({prop}, kind), budget=150)
+    for kid, (kf, count, (idx, kind, msg)) in sorted(known.items()):
+        pat = kf['match']
+        small = shrink(progs[idx].lines(), lambda ls: _has_message(ls, prop, kind, pat), budget=150)
         os.makedirs(C.REPLAYS, exist_ok=True)
-        rpath = os.path.join(C.REPLAYS, '%s_known_D10.txt' % prop)
+        rpath = os.path.join(C.REPLAYS, '%s_known_%s.txt' % (prop, kid))
         with open(rpath, 'w') as f:
-            f.write('# property=%s tier=%s seed=%d\n# KNOWN-FINDING D10 (%s): %s\n' % (prop, tier, C.seed(), D10_KEY, msg))
+            f.write('# property=%s tier=%s seed=%d\n# KNOWN-FINDING %s: %s\n' % (prop, tier, C.seed(), kid, msg))
             f.write('\n'.join(small) + '\nend\n')
-        res.known_finding('%s (key: %s; %d generated/corpus program(s) of that shape; replay=%s)' % (D10_WHAT, D10_KEY, known, rpath))
+        res.known_finding('%s [%d program(s) of this run, e.g. %s; replay=%s]' % (kf['what'], count, msg, rpath))
     reported = set()
     for (idx, kind, q, msg) in prop_fail[:20]:
         p = progs[idx]
@@ -1113,7 +1102,7 @@ def check(res, prop, tier, n_quick, n_thorough, extra_programs=(), twins=False, 
         'traces_validated_against_impl': (len(progs) + (n_asan if len(kinds) > 1 else 0)) if drv_ok else 0,
         'distribution': dist,
         'streams_compared': ['yaclib (harness/pipe.cpp, builds: %s)' % ','.join(kinds)] + (['Lean mech', 'Lean spec'] if drv_ok else []),
-        'known_d10_programs': known,
+        'known_findings': {k: v[1] for k, v in known.items()},
         't3_wall_s': round(time.time() - t0, 2),
     })
     return prop_fail, corr_fail
